@@ -110,7 +110,81 @@ class StorageAdapter(Adapter):
         return base
 
 
+HIST_COMPONENTS = {
+    "real": ["iindex (constructor, from_array, shift_common, append, update, filtered, sliced, slices1d, reindexed, "
+             "collapsed, copy, union/intersection/difference_update, get/items/to_dict/common_rowids, validate, "
+             "abscissae, sparsity, __eq__/__ne__)", "column_stack", "set_operations kernels", "IndxIO.save/load",
+             "ccube.count (well-formedness consequence)"],
+    "stub": ["file object handed to IndxIO.save (logging proxy on a memfd)"],
+    "reference_model": ["dense int64 NumPy array per live index (sim/model.py)"],
+}
+
+
+class HistAdapter(Adapter):
+    engine = "hist"
+    level = "exploration"
+    components = HIST_COMPONENTS
+    RUNS = {"quick": 40000, "thorough": 2000000}
+    assumptions = [
+        "NumPy's concatenate/column_stack/take/boolean selection are the reference semantics",
+        "arguments are kept inside each operation's documented domain by the generator's guards",
+        "from_array's content and failures are C01's business: the model adopts what it returns, only its "
+        "well-formedness (C07) and chosen common (C15) are judged",
+    ]
+
+    def __init__(self, prop, probes=()):
+        self.prop = prop
+        self.required_probes = probes
+
+    @property
+    def run(self):
+        from .props import hist
+
+        return hist.RUNS[self.prop]
+
+    def replay(self, case):
+        from .props import hist
+
+        hist.replay(self.prop, case)
+
+    def minimise(self, case, signature):
+        from .props import hist
+
+        return hist.minimise(self.prop, case, signature)
+
+    def size(self, case):
+        return len(case["history"]) if case else 0
+
+    def coverage(self, stats, tier, n_runs):
+        from .props import hist
+
+        return {
+            "evaluations": int(stats.counters.get("evaluations", 0)),
+            "distinct_nontrivial": len(stats.distinct.get("nontrivial_histories", ())),
+            "rule": hist.RULE,
+            "samples": stats.samples[:3],
+            "exhaustive": False,
+            "steps_executed": int(stats.counters.get("steps", 0)),
+            "distinct_operation_sequences": len(stats.distinct.get("op_sequences", ())),
+            "faults_injected": {"persist_crash_then_reload": stats.counters.get("fault_persist_crash", 0)},
+        }
+
+
+HIST_PROBES = (
+    "probe_append_empty_operand", "probe_append_operand_common_has_no_rows", "probe_append_same_common",
+    "probe_append_different_common", "probe_update_writes_common", "probe_update_deleted_whole_entry",
+    "probe_reindexed_merges_values", "probe_reindexed_onto_common", "probe_reindexed_partial_mapping",
+    "probe_reindexed_default_mapping", "probe_collapsed_common_first", "probe_collapsed_common_middle",
+    "probe_collapsed_common_last", "probe_collapsed_common_absent", "probe_collapsed_negative_precedence",
+    "probe_collapsed_omits_present_value", "probe_shift_common_changed_common", "probe_shift_to_absent",
+    "probe_clean_reload", "probe_torn_reload_rejected", "probe_sliced_3d", "probe_slices1d_3d",
+    "probe_column_stack_mixed_commons", "probe_column_stack_mixed_ndim", "from_array_rowscan_candidate",
+)
+
 REGISTRY = {
+    "C06": HistAdapter("C06", HIST_PROBES),
+    "C07": HistAdapter("C07", HIST_PROBES),
+    "C15": HistAdapter("C15", HIST_PROBES + ("c15_library_chosen_common_checked", "c15_equality_pairs")),
     "C10": StorageAdapter("C10", "exploration", {"quick": 60000, "thorough": 3000000},
                           probes=("index_derived_cases", "empty_entry_sets", "cases_with_empty_rowid_array",
                                   "wmode_raw", "wmode_bufw", "wmode_bufrw", "c_level_blocks")),
